@@ -1193,6 +1193,11 @@ def _isolation(ctx: Context, R: str, f, attr: str | None, anchor: bool) -> int:
                 ck.unknown(R, f"{who}: the listener is not simply called with the event parameter", ctx.loc(f, n))
     call_ids = {id(c) for _n, c, _coll in calls}
     base = ctx.flow
+    # a listener is an arbitrary callable (plain function, bound method, functools.partial, callable instance): the only
+    # thing every one of them supports is being called; reading any other attribute of it (`listener.__qualname__` for a
+    # nicer log line) raises AttributeError for a partial / callable instance - in the handler that is outside the try
+    lnames = {c.func.id for _n, c, _coll in calls if isinstance(c.func, ast.Name)}
+    universal = {"__class__", "__doc__", "__call__", "__repr__", "__str__", "__hash__", "__eq__", "__ne__", "__dir__", "__reduce__"}
 
     def raises(g, node, hstack):
         out = set(base._raises(g, node, hstack))
@@ -1202,6 +1207,9 @@ def _isolation(ctx: Context, R: str, f, attr: str | None, anchor: bool) -> int:
             for sub in walk_expr(e):
                 if isinstance(sub, ast.Call) and id(sub) in call_ids:
                     out.add("Exception")
+                elif isinstance(sub, ast.Attribute) and isinstance(sub.ctx, ast.Load) and isinstance(sub.value, ast.Name) and sub.value.id in lnames \
+                        and sub.attr not in universal:
+                    out.add("AttributeError")
         return out
 
     x = CFG(ctx.prog, f, raises, base._noreturn)
@@ -1615,6 +1623,10 @@ VARIANTS = [
 ]
 
 VARIANTS += [
+    {"name": "handler names the failing listener by listener.__qualname__ (a partial has none)", "file": "aiohomekit/controller/abstract.py",
+     "old": '                logger.exception("Unhandled error when processing event")',
+     "new": '                logger.exception("Unhandled error in %s when processing event", listener.__qualname__)',
+     "expect": "C12.X1"},
     {"name": "delivery loop iterates the live listener set (pinned defect)", "file": "aiohomekit/controller/abstract.py",
      "old": "        for listener in list(self.listeners):", "new": "        for listener in self.listeners:", "expect": "C12.X2"},
     {"name": "event body decoded outside the try (pinned defect)", "file": "aiohomekit/controller/ip/connection.py",
